@@ -35,6 +35,9 @@ INTERNAL_WORK = {
     ("renormalizer/tn/gs.py", "optimize_recursion", "ttns"): "sweep helper of optimize_ttns (documented to optimise its ttns in place)",
     ("renormalizer/tn/gs.py", "optimize_2site", "ttns"): "helper of optimize_ttns",
     ("renormalizer/mps/gs.py", "single_sweep", "mps"): "sweep helper of optimize_mps ('The MPS is overwritten')",
+    ("renormalizer/mps/lib.py", "_sum", "mps_list"): "private helper of compressed_sum: functools.reduce over a ONE-element list returns that element, which _sum then canonicalises and "
+                                                     "compresses in place; it is analysed through its caller, which must prove that every batch holds at least two terms "
+                                                     "(EFFECT derives that fact from the reduction-queue loop; without it the caller is reported)",
 }
 # one narrow suppression keyed by origin (function, statement with local names abstracted to _1, _2, ...); the key changes with the statement's
 # structure, so an edit is re-triaged, but a mere renaming of locals is not
@@ -143,7 +146,7 @@ def run(chk):
     chk.extra["api_function_parameter_pairs"] = n_pairs
     # ---------------------------------------------------------------- fresh-result
     PRODUCERS = {"copy", "metacopy", "conj", "conj_trans", "add", "apply", "contract", "evolve", "evolve_exact", "from_mps", "from_tensors",
-                 "expand_bond_dimension", "expand_bond_dimension_general", "compressed_sum", "_sum", "variational_compress",
+                 "expand_bond_dimension", "expand_bond_dimension_general", "compressed_sum", "variational_compress",
                  "__add__", "__sub__", "__matmul__", "__mul__", "__rmul__", "calc_bond_singular_values", "max_entangled_ex",
                  "max_entangled_gs", "evolve_tdvp_vmf", "optimize_mps", "evolve_prop", "evolve_single_step"}
     for (rel, qual, inplace, bind), s in sorted(eng.summ.items(), key=lambda kv: (kv[0][0], kv[0][1], str(kv[0][2]), str(kv[0][3]))):
